@@ -10,12 +10,12 @@ CHECKS = {
          "its slot and nothing else in any archive; over whole histories each interval reads the last write to it or NaN if another lap took the slot - for any archive "
          "under direct writes and, from Create through any mixture of single and batch updates with every propagation chain, for the finest archive; for every archive "
          "after any such history no stale lap, foreign slot or foreign archive is ever returned (invariant carried through every step). Partial: the value of coarser "
-         "slots as one function of the whole history (its frame half is a theorem: a single update changes only the slots stamped with the intervals of its own time, C02S.updatePoint_local); page layout of filebuffer not modelled. Tied to the code by differential histories with raw-slot, byte and fetch comparison after every step.",
+         "slots as one function of the whole history (its frame half is a theorem: over any history of accepted single updates a slot of any archive changes only through an update whose time lies inside the interval the slot is then stamped with, C02S.history_any_changes_only_inside); page layout of filebuffer not modelled. Tied to the code by differential histories with raw-slot, byte and fetch comparison after every step.",
          "Lean 4 theorems (ring refinement, write frame, history induction, global invariant) + correspondence check", "§5 C01"),
  "C02": ("Lean theorems for all inputs: the consolidation step (which finer values count, when the coarser slot is stored, what and where, untouched otherwise), the six "
          "aggregates stated outright, and the whole chain as a refinement - for a single update and for every batch the work-list loop equals the level-by-level chain "
          "in which the next level's list is exactly the next archive's intervals of the slots that were stored, and a level that stores nothing ends the chain; no update panics. "
-         "Locality: a single update changes in each archive behind the written one at most the slot stamped with that level's interval of the written time, and nothing else anywhere (C02S.updatePoint_local). "
+         "Locality: a single update changes in each archive behind the written one at most the slot stamped with that level's interval of the written time, and nothing else anywhere (C02S.updatePoint_local_any); over any history of accepted single updates a slot changes only through an update whose time lies inside the interval it is then stamped with (C02S.history_any_changes_only_inside); the chain of a batch is local in the same sense (propagateChain_batch_local). "
          "The float32 xFilesFactor comparison is a named law validated on boundary bit patterns.",
          "Lean 4 theorems (case analysis of the step, refinement of the work-list loop) + raw-slot correspondence after every write", "§5 C02"),
  "C03": ("Acceptance, routing and the batch partition are Lean theorems over lists for all batches: the batch update equals per-archive writes of exactly the right sub-lists "
